@@ -60,7 +60,7 @@ theorem C15_core_step_erasure (o : KcpO) (op : Kcp.Op) : (stepO o op).k = Kcp.st
   | wndSize s r => rfl
   | setStream v => rfl
 
-theorem C15_aux_inv_step {o : KcpO} (h : OwnInv o) (op : Kcp.Op) : OwnInv (stepO o op) := by
+theorem C15_aux_inv_step {F : Nat → Nat} {o : KcpO} (h : OwnInvF F o) (op : Kcp.Op) : OwnInvF F (stepO o op) := by
   cases op with
   | send b => exact sendO_inv h b
   | recv n => exact recvO_inv h n
@@ -69,14 +69,14 @@ theorem C15_aux_inv_step {o : KcpO} (h : OwnInv o) (op : Kcp.Op) : OwnInv (stepO
   | update now => exact updateO_inv h now
   | setMtu m =>
     obtain ⟨a, b, c, hk⟩ := setMtu_shape o.k m
-    show OwnInv { o with k := (o.k.setMtu m).1 }
+    show OwnInvF F { o with k := (o.k.setMtu m).1 }
     apply h.setK <;> (rw [hk])
   | noDelay a b c d =>
     obtain ⟨nd, mr, iv, fr, nc, hk⟩ := noDelay_shape o.k a b c d
-    show OwnInv { o with k := o.k.noDelay a b c d }
+    show OwnInvF F { o with k := o.k.noDelay a b c d }
     apply h.setK <;> (rw [hk])
   | wndSize s r =>
-    show OwnInv { o with k := o.k.wndSize s r }
+    show OwnInvF F { o with k := o.k.wndSize s r }
     apply h.setK <;> (unfold wndSize; simp only []; split <;> split <;> rfl)
   | setStream v => exact h.setK rfl rfl rfl rfl
 
@@ -183,7 +183,8 @@ theorem C15_core_no_leak (conv snd0 rcv0 : U32) (ops : List Kcp.Op) (id : Nat)
   rw [List.append_nil] at hag
   have hb := hw.bal id
   have hm : id ∈ owned (runO (startO conv snd0 rcv0) ops).gh := (hag id).mpr h
-  simpa only [hm, if_true] using hb
+  simp only [hm, if_true] at hb
+  omega
 
 /-- ids are acquisition numbers: the `n`-th `Get` of a run hands out id `n` (this is the numbering
 the harness applies to the real sanitizer's log), so every get in the log is of a fresh id -/
